@@ -98,7 +98,7 @@ def _step_labels(ctx, old, new, labels):
         labels.append("ordered-move")
     for r in new:
         cl = ctx.classify(r)
-        if cl and RL.is_block(cl[0]) and r in old:
+        if cl and RL.blockish(ctx, cl[0], r) and r in old:
             if any(c.get("rewrite") for c in cl[0]["children"]) and old[r] != new[r]:
                 labels.append("rewrite-reset")
             _step_labels(ctx.child(cl[0], r), old[r], new[r], labels)
